@@ -60,7 +60,45 @@ def _nightly_sysroot():
     return subprocess.check_output(["rustc", "+nightly", "--print", "sysroot"], text=True).strip()
 
 
+def _deps_key(repo):
+    """key of the dependency build that can be shared between extractions: lock file, driver and compiler"""
+    h = hashlib.sha256()
+    for f in (os.path.join(repo, "Cargo.lock"), DRIVER):
+        try:
+            with open(f, "rb") as fh:
+                h.update(fh.read())
+        except OSError:
+            h.update(b"<missing>")
+    h.update(subprocess.check_output(["rustc", "+nightly", "-vV"]))
+    return h.hexdigest()[:16]
+
+
+def _strip_members(target):
+    """remove every build product and fingerprint of the workspace members from a target directory, so that cargo must run the
+    (wrapped) compiler on each of them again; the third-party dependencies stay built"""
+    dbg = os.path.join(target, "debug")
+    for sub in (".fingerprint", "deps", "incremental", "build"):
+        d = os.path.join(dbg, sub)
+        if not os.path.isdir(d):
+            continue
+        for e in os.listdir(d):
+            n = e.replace("-", "_")
+            if n.startswith(("huginn_net", "libhuginn_net")):
+                pth = os.path.join(d, e)
+                if os.path.isdir(pth):
+                    shutil.rmtree(pth, ignore_errors=True)
+                else:
+                    try:
+                        os.unlink(pth)
+                    except OSError:
+                        pass
+
+
 def _extract(outdir, repo=None):
+    """Run the fact driver over the workspace of `repo`.  Third-party dependencies are compiled once per (Cargo.lock, driver,
+    compiler) into a template target directory under the cache; every extraction works on its own copy of that template from which
+    all products of the workspace members were removed, so the five member crates are always recompiled by the driver from the
+    tree being analysed (their fact files are asserted to exist afterwards)."""
     repo = repo or REPO
     if not os.path.exists(DRIVER):
         raise FactsError("driver binary missing: run MANIFEST.setup_cmd (%s)" % DRIVER)
@@ -75,8 +113,34 @@ def _extract(outdir, repo=None):
         env["CARGO_NET_OFFLINE"] = "true"
         for k in ("RUSTC_WRAPPER", "CARGO_BUILD_RUSTC_WRAPPER"):
             env.pop(k, None)
-        p = subprocess.run(["cargo", "+nightly", "check", "--offline", "--workspace", "--lib", "-q"],
-                           cwd=repo, env=env, stdout=subprocess.PIPE, stderr=subprocess.STDOUT, text=True)
+        cmd = ["cargo", "+nightly", "check", "--offline", "--workspace", "--lib", "-q"]
+        tmpl = None
+        if os.environ.get("VERIF_NO_DEPS_CACHE") != "1":
+            try:
+                os.makedirs(CACHE, exist_ok=True)
+                tmpl = os.path.join(CACHE, "deps-" + _deps_key(repo))
+                with open(tmpl + ".lock", "w") as lk:
+                    fcntl.flock(lk, fcntl.LOCK_EX)
+                    if not os.path.isdir(os.path.join(tmpl, "target")):
+                        t2 = tmpl + ".tmp%d" % os.getpid()
+                        shutil.rmtree(t2, ignore_errors=True)
+                        e2 = dict(env)
+                        e2["CARGO_TARGET_DIR"] = os.path.join(t2, "target")
+                        e2["HN_FACTS_OUT"] = os.path.join(t2, "facts")
+                        p0 = subprocess.run(cmd, cwd=repo, env=e2, stdout=subprocess.PIPE, stderr=subprocess.STDOUT, text=True)
+                        if p0.returncode == 0:
+                            _strip_members(os.path.join(t2, "target"))
+                            shutil.rmtree(os.path.join(t2, "facts"), ignore_errors=True)
+                            os.rename(t2, tmpl)
+                        else:
+                            shutil.rmtree(t2, ignore_errors=True)
+                            tmpl = None      # the tree does not build: fall through to the plain run for the error text
+                if tmpl is not None and os.path.isdir(os.path.join(tmpl, "target")):
+                    subprocess.check_call(["cp", "-a", os.path.join(tmpl, "target"), os.path.join(scratch, "target")])
+                    _strip_members(os.path.join(scratch, "target"))
+            except (OSError, subprocess.CalledProcessError):
+                shutil.rmtree(os.path.join(scratch, "target"), ignore_errors=True)
+        p = subprocess.run(cmd, cwd=repo, env=env, stdout=subprocess.PIPE, stderr=subprocess.STDOUT, text=True)
         if p.returncode != 0:
             raise FactsError("cargo check under the fact driver failed:\n" + p.stdout[-4000:])
         os.makedirs(outdir, exist_ok=True)
@@ -118,7 +182,7 @@ def acquire(repo=None, cache=None):
     with open(os.path.join(cache, "lock"), "w") as lk:
         fcntl.flock(lk, fcntl.LOCK_EX)
         # prune: keep the most recent entries
-        ents = [os.path.join(cache, e) for e in os.listdir(cache) if os.path.isdir(os.path.join(cache, e)) and ".tmp" not in e]
+        ents = [os.path.join(cache, e) for e in os.listdir(cache) if os.path.isdir(os.path.join(cache, e)) and ".tmp" not in e and not e.startswith("deps-")]
         ents.sort(key=lambda p: os.path.getmtime(p), reverse=True)
         for e in ents[6:]:
             if e != d:
